@@ -362,6 +362,16 @@ void build_owning(vf::Explorer<OW<B>>& ex, size_t S, bool full_gallery, bool all
                 x.m = o; return true; });
         }
     }
+    // aliasing operands: the same object on both sides, and a view over the bitset's own blocks as right operand
+    add("and-assign", "&=self", [](W& x, Errs&) { x.bs &= x.bs; return true; });
+    add("or-assign", "|=self", [](W& x, Errs&) { x.bs |= x.bs; return true; });
+    add("xor-assign", "^=self", [](W& x, Errs&) { x.bs ^= x.bs; x.m.assign(x.m.size(), false); return true; });
+    add("xor", "^self", [](W& x, Errs&) { BS r = x.bs ^ x.bs; x.bs = r; x.m.assign(x.m.size(), false); return true; });
+    add("and-assign", "&=view(self)", [](W& x, Errs&) { xtl::xdynamic_bitset_view<B> v(x.bs.data(), x.m.size()); x.bs &= v; return true; });
+    add("or-assign", "|=view(self)", [](W& x, Errs&) { xtl::xdynamic_bitset_view<B> v(x.bs.data(), x.m.size()); x.bs |= v; return true; });
+    add("xor-assign", "^=view(self)", [](W& x, Errs&) { xtl::xdynamic_bitset_view<B> v(x.bs.data(), x.m.size()); x.bs ^= v; x.m.assign(x.m.size(), false); return true; });
+    add("copy", "=self", [](W& x, Errs&) { BS& r = x.bs; x.bs = r; return true; });
+    add("swap", "swap(self)", [](W& x, Errs&) { x.bs.swap(x.bs); return true; });
     // copy / move / round trip through a view
     add("copy", "copy-assign-self-copy", [](W& x, Errs&) { BS c(x.bs); x.bs = c; return true; });
     add("move", "move-construct", [](W& x, Errs&) { BS c(std::move(x.bs)); x.bs = std::move(c); return true; });
@@ -465,6 +475,13 @@ void build_view(vf::Explorer<VW<B>>& ex, size_t n, bool full_gallery)
             BS rhs = make_bs<B>(o); BS r = v & rhs; std::vector<bool> f(x.m); for (size_t i = 0; i < o.size(); ++i) f[i] = f[i] && o[i];
             Errs q; query_all(r, f, q, true); for (auto& kv : q.v) e.add("and-result-" + kv.first, kv.second); return true; });
     }
+    // aliasing operands: the view itself, and a second view over the same caller memory
+    add("and-assign", "&=self", [](V& v, W&, Errs&) { v &= v; return true; });
+    add("or-assign", "|=self", [](V& v, W&, Errs&) { v |= v; return true; });
+    add("xor-assign", "^=self", [](V& v, W& x, Errs&) { v ^= v; x.m.assign(x.m.size(), false); return true; });
+    add("and-assign", "&=view2(same memory)", [](V& v, W& x, Errs&) { V v2(v.data(), x.m.size()); v &= v2; return true; });
+    add("or-assign", "|=view2(same memory)", [](V& v, W& x, Errs&) { V v2(v.data(), x.m.size()); v |= v2; return true; });
+    add("xor-assign", "^=view2(same memory)", [](V& v, W& x, Errs&) { V v2(v.data(), x.m.size()); v ^= v2; x.m.assign(x.m.size(), false); return true; });
     add("resize", "resize(same)", [](V& v, W& x, Errs&) { v.resize(x.n); return true; });
     add("resize", "resize(other)", [](V& v, W& x, Errs& e) {
         bool threw = false;
